@@ -694,6 +694,20 @@ class Bubble(monoidal.Bubble, Box):
         self.func = func
         super().__init__(inside, **params)
 
+    @property
+    def free_symbols(self):
+        return self.inside.free_symbols
+
+    def subs(self, *args):
+        return Bubble(self.inside.subs(*args), func=self.func,
+                      dom=self.dom, cod=self.cod,
+                      drawing_name=self.drawing_name)
+
+    def lambdify(self, *symbols, **kwargs):
+        return lambda *xs: Bubble(
+            self.inside.lambdify(*symbols, **kwargs)(*xs), func=self.func,
+            dom=self.dom, cod=self.cod, drawing_name=self.drawing_name)
+
     def grad(self, var, **params):
         """
         The gradient of a bubble is given by the chain rule.
